@@ -20,7 +20,7 @@ for m in sorted(glob.glob(os.path.join(HERE, 'seeded', '*', 'meta.json'))):
     code = line[0].split('exit=')[1].split()[0] if line else '?'
     sigs = line[0].split(';', 1)[1].strip()[:200] if line else r.stdout[-200:]
     ok = (code == '1') if expect_caught else (code == '0')
-    rows.append({'name': name, 'property': prop, 'exit': code, 'expected': 'caught' if expect_caught else 'not caught (out of scope)', 'as_expected': ok,
+    rows.append({'name': name, 'property': prop, 'exit': code, 'expected': 'caught' if expect_caught else ('obsolete: unreachable on the repaired base' if meta.get('obsolete_since') else 'not caught (out of scope)'), 'as_expected': ok,
                  'signatures': sigs, 'wall_s': round(time.time() - t0, 1)})
     print('%-62s %s exit=%s %s %s' % (name, prop, code, 'OK' if ok else 'UNEXPECTED', sigs[:90]), flush=True)
 out = ['# Sensitivity re-run: every seeded defect against the quick tier of its owning check (budget %s s exploration each)' % budget, '',
